@@ -29,6 +29,8 @@ SEEDS = {
  "C16-2": ("C16", "Cache-Control with s-maxage=0 next to a positive max-age", "C16 quick", "caught after strengthening (header strings also enumerated at directive level, up to 3-4 directives and every two-line split)"),
  "C19-1": ("C19", "subscribe of a query whose execution fails, then subscribe re-using the same id: the id is never released", "C19 quick", "caught after strengthening by the check's author (re-use of an id after the server's terminal message is judged; fingerprint class carries the operation kind)"),
  "C19-2": ("C19", "graphql-transport-ws, acknowledged connection, second connection_init, observer that decodes the close code (1011 instead of 4429)", "C19 quick", "caught as built (prescribed close code 4429)"),
+ "C06-1": ("C06", "a list that is the type of an INPUT OBJECT FIELD whose named type is a custom scalar and whose item type is non-null or a list, with a null / non-list item in a non-empty array", "C06 quick", "caught as built: 'every non-coercible variable value is rejected', site 'list item in input field', class 'null for non-null'"),
+ "C06-2": ("C06", "a multi-step sequence on ONE VariablesValidator instance: a visitor-level rejection followed by any other call (the sticky error field is never reset)", "see extra.json", "missed as built (a fresh validator per case); see extra.json for the strengthened check"),
 }
 
 def log_summary(name):
